@@ -218,7 +218,7 @@ def run(ctx, rep) -> None:
     rep.assume("numerical equality with the serial optimizer and the rounding bound for reduced-precision communication are NOT decided")
 
 
-def _dist_remask(ctx, rep, rule: str, cls_q: str) -> None:
+def _dist_remask(ctx, rep, rule: str, cls_q: str, floor: int = 4) -> None:
     """mask completeness + change guard, restricted to one distributor class (reuses C04.2 by filtering its obligations)."""
     from ..report import Report
 
@@ -232,4 +232,4 @@ def _dist_remask(ctx, rep, rule: str, cls_q: str) -> None:
             n += 1
             if not ob.ok:
                 rep.samples.append({"rule": ob.rule, "key": ob.key, "where": ob.where, "verdict": "VIOLATED", "detail": ob.detail})
-    rep.floor(rule, f"re-mask obligations of {name}", n, 4)
+    rep.floor(rule, f"re-mask obligations of {name}", n, floor)
